@@ -71,6 +71,7 @@ impl RingBuffer {
     #[inline(never)]
     #[cold]
     fn reserve_amortized(&mut self, amount: usize) {
+        vhit!(ring_grow);
         // SAFETY: if we were succesfully able to construct this layout when we allocated then it's also valid do so now
         let current_layout = unsafe { Layout::array::<u8>(self.cap).unwrap_unchecked() };
 
@@ -297,6 +298,7 @@ impl RingBuffer {
             // S: Source bytes, to be copied to D bytes
             // D: Destination bytes, going to be copied from S bytes
             // _: Uninvolved bytes in the writable section
+            vhit!(ring_efw_contig_src);
             let after_tail = usize::min(len, self.cap - self.tail);
 
             let src = (
@@ -318,6 +320,7 @@ impl RingBuffer {
             unsafe { copy_bytes_overshooting(src, dst, after_tail) }
 
             if after_tail < len {
+                vhit!(ring_efw_contig_src_split_dst);
                 // The write section was not continuous:
                 //
                 //            H           T
@@ -363,6 +366,7 @@ impl RingBuffer {
                 // D: Destination bytes, going to be copied from S bytes
                 // _: Uninvolved bytes in the writable section
 
+                vhit!(ring_efw_wrapped_src_second);
                 let start = (self.head + start) % self.cap;
 
                 let src = (
@@ -396,6 +400,7 @@ impl RingBuffer {
                 // D: Destination bytes, going to be copied from S bytes
                 // _: Uninvolved bytes in the writable section
 
+                vhit!(ring_efw_wrapped_src_first);
                 let after_start = usize::min(len, self.cap - self.head - start);
 
                 let src = (
@@ -417,6 +422,7 @@ impl RingBuffer {
                 unsafe { copy_bytes_overshooting(src, dst, after_start) }
 
                 if after_start < len {
+                    vhit!(ring_efw_wrapped_src_both);
                     // The read section was not continuous:
                     //
                     //                T           H
@@ -565,6 +571,14 @@ impl RingBuffer {
     }
 }
 
+#[cfg(feature = "verif_hooks")]
+impl RingBuffer {
+    /// Verification hook: (pointer, capacity, head, tail)
+    pub fn verif_state(&self) -> (usize, usize, usize, usize) {
+        (self.buf.as_ptr() as usize, self.cap, self.head, self.tail)
+    }
+}
+
 impl Drop for RingBuffer {
     fn drop(&mut self) {
         if self.cap == 0 {
@@ -615,6 +629,7 @@ unsafe fn copy_bytes_overshooting(
 
     // Can copy in just one read+write, very common case
     if min_buffer_size >= COPY_AT_ONCE_SIZE && copy_at_least <= COPY_AT_ONCE_SIZE {
+        vhit!(ring_copy_single);
         dst.0
             .cast::<CopyType>()
             .write_unaligned(src.0.cast::<CopyType>().read_unaligned())
@@ -622,6 +637,7 @@ unsafe fn copy_bytes_overshooting(
         let copy_multiple = copy_at_least.next_multiple_of(COPY_AT_ONCE_SIZE);
         // Can copy in multiple simple instructions
         if min_buffer_size >= copy_multiple {
+            vhit!(ring_copy_multi);
             let mut src_ptr = src.0.cast::<CopyType>();
             let src_ptr_end = src.0.add(copy_multiple).cast::<CopyType>();
             let mut dst_ptr = dst.0.cast::<CopyType>();
@@ -633,6 +649,7 @@ unsafe fn copy_bytes_overshooting(
             }
         } else {
             // Fall back to standard memcopy
+            vhit!(ring_copy_memcpy);
             dst.0.copy_from_nonoverlapping(src.0, copy_at_least);
         }
     }
